@@ -202,11 +202,15 @@ Definition sign_req (key_name : ns_name) (pub : bytes) (sg : option signer_in) (
 
 Inductive issuer_in := IssText (s : str) | IssComp (c : bytes).
 
+(* isinstance(issuer_id, str) -> Component.from_str(issuer_id) *)
+Definition issuer_comp (iss : issuer_in) : res bytes :=
+  match iss with IssText s => comp_from_str s | IssComp c => Ok c end.
+
 (* derive_cert(key_name, issuer_id, pub_key, signer, start_time, expire_sec), whole seconds, fixed-offset zone *)
 Definition derive_cert (key_name : ns_name) (iss : issuer_in) (pub : bytes) (sg : option signer_in) (ts : Z)
            (start : atime) (expire : Z) : res made :=
   do e <- add_seconds (a_fields start) expire ;;
-  do ic <- match iss with IssText s => comp_from_str s | IssComp c => Ok c end ;;
+  do ic <- issuer_comp iss ;;
   new_cert {| c_key_name := key_name; c_issuer := ic; c_now := ts; c_pub := pub; c_signer := sg;
               c_start := start; c_end := {| a_fields := e; a_offset := a_offset start |} |}.
 
